@@ -103,11 +103,32 @@ func family(f int) *Scenario {
 		a.Hook = "fail"
 		b.Sync = true
 		return &Scenario{Subs: []SubCfg{a, b}, Lanes: [][]Op{{{"sub", 1, 0}}, {{"sub", 2, 0}}}}
+	case 18: // the subscriber that CREATED the trigger is synchronous and leaves by request-context cancellation while a
+		// second subscriber shares the trigger; the source goes on emitting, completes, and says Done
+		a, b := sub(1, 0, 1), sub(2, 0, 2)
+		a.Sync = true
+		return &Scenario{Subs: []SubCfg{a, b},
+			Lanes: [][]Op{{{"sub", 1, 0}}, {{"sub", 2, 0}}, {{"cancelctx", 1, 0}},
+				{{"update", 1, 3}, {"update", 1, 4}, {"complete", 1, 0}, {"done", 1, 0}}}}
+	case 19: // the same with an asynchronous creator whose context the router cancels before it unsubscribes it; a filter on
+		// the survivor; the stream ends with an error
+		a, b := sub(1, 0, 1), sub(2, 0, 2)
+		b.Flt = 2
+		return &Scenario{Subs: []SubCfg{a, b},
+			Lanes: [][]Op{{{"sub", 1, 0}, {"cancelctx", 1, 0}, {"unsub", 1, 0}}, {{"sub", 2, 0}},
+				{{"update", 1, 3}, {"update", 1, 4}, {"update", 1, 5}, {"error", 1, 0}, {"done", 1, 0}}}}
+	case 20: // three subscribers on one trigger: the creator and one joiner leave by context cancellation (one synchronous),
+		// the third stays while the source emits from two goroutines
+		a, b, c := sub(1, 0, 1), sub(2, 0, 2), sub(3, 0, 3)
+		b.Sync = true
+		return &Scenario{Subs: []SubCfg{a, b, c},
+			Lanes: [][]Op{{{"sub", 1, 0}, {"cancelctx", 1, 0}, {"unsub", 1, 0}}, {{"sub", 2, 0}}, {{"cancelctx", 2, 0}}, {{"sub", 3, 0}},
+				{{"update", 1, 3}, {"update", 1, 6}, {"complete", 1, 0}}, {{"update", 1, 4}}}}
 	}
 	return nil
 }
 
-const nFamilies = 18
+const nFamilies = 21
 
 // random scenarios: 1-3 subscribers on 1-2 triggers, random outcomes and op lanes
 func genScenario(r *common.Rand) *Scenario {
